@@ -44,6 +44,10 @@ def parseKey (kk : KeyKind) (b : Bytes) : Option Nat :=
       | some s =>
           if s.all (fun c => 97 ≤ c && c ≤ 122) then some (s.foldl (fun acc c => acc * 26 + (c.toNat - 97)) 0) else none
       | none => none
+  | .i64w =>
+      match b with
+      | 45 :: rest => (Codec.parseNat rest).bind fun n => if n ≤ 2 ^ 63 ∧ n ≠ 0 then some (2 ^ 63 - n) else none
+      | _ => (Codec.parseNat b).bind fun n => if n < 2 ^ 63 then some (n + 2 ^ 63) else none
   | .bytes | .sk | .skc | .strx => none
 
 /-- strictly ascending under the loader's key order (`desc` = a reversed `KeyCompare`) -/
